@@ -3,4 +3,4 @@ go build -modfile="$scratch/mod/go.mod" -o "$scratch/bin/rewrite" ./mc/rewrite |
 "$scratch/bin/rewrite" -repo "$VERIF_REPO" -out "$scratch/inst" -overlay "$scratch/overlay.json" \
    writer/service/genericInsertService.go writer/utils/promise/promise.go writer/controller/builder.go \
    writer/service/impl/samplesInsertService.go writer/service/impl/timeSeriesInsertService.go \
-   writer/service/impl/tempoInsertService.go 2>"$scratch/rewrite.log" || { cat "$scratch/rewrite.log" >&2; return 1; }
+   writer/service/impl/tempoInsertService.go writer/service/impl/profileInsertService.go 2>"$scratch/rewrite.log" || { cat "$scratch/rewrite.log" >&2; return 1; }
